@@ -140,7 +140,25 @@ def programs(tier):
                 chain = ws + (atom,)
                 if _valid(chain) and (d < 3 or tier == "thorough" or _quick_depth3(chain)):
                     out.append(chain)
+    # a fixed set of deeper chains (both tiers): sibling writes and scans under TWO namespace levels
+    # (a merge that is right one level below the root can still be wrong two levels down)
+    for chain in DEEP_CHAINS:
+        if chain not in out:
+            out.append(chain)
     return out
+
+
+DEEP_CHAINS = (
+    ("namespace", "namespace", "earlier", "scan", "save"),
+    ("namespace", "namespace", "later", "scan", "save"),
+    ("namespace", "namespace", "earlier", "scan", "multi"),
+    ("namespace", "namespace", "scan", "earlier", "save"),
+    ("namespace", "namespace", "earlier", "scan", "namespace", "save"),
+    ("namespace", "namespace", "namespace", "earlier", "scan", "save"),
+    ("namespace", "earlier", "namespace", "scan", "save"),
+    ("namespace", "namespace", "earlier", "scan", "scan", "save"),
+    ("fn", "namespace", "namespace", "earlier", "scan", "leaf"),
+)
 
 
 def construct(chain):
